@@ -280,6 +280,15 @@ func (s *filterSyms) listElem(v ssa.Value) (iPath string, k int64, ok bool) {
 
 // mapOfLen: if m is a load of f.ipMaps[j] return j.
 func (s *filterSyms) mapIndex(m ssa.Value) (j ssa.Value, ok bool) {
+	// `for i, m := range f.ipMaps` (an array): go/ssa loads the array once and indexes the loaded value
+	if ix, isIx := m.(*ssa.Index); isIx {
+		if ld, isL := sx.Unspill(ix.X).(*ssa.UnOp); isL && ld.Op == token.MUL {
+			if fa, isF := ld.X.(*ssa.FieldAddr); isF && sx.FieldOf(fa) == s.ipMaps {
+				return ix.Index, true
+			}
+		}
+		return nil, false
+	}
 	ld, isL := m.(*ssa.UnOp)
 	if !isL || ld.Op != token.MUL {
 		return nil, false
